@@ -426,7 +426,7 @@ _BLOCK = re.compile(r'^State \d+:.*$', re.M)
 _VAR = r'^(?:/\\ )?%s = '
 
 
-def dump_done(module, cfg, workers=8, coverage=False, timeout=900):
+def dump_done(module, cfg, workers=8, coverage=False, timeout=3600):
     """Exhaustive run with -dump; -> (result, {hashable hist: (hist, out, bad)})
     for every state with phase = "done".  A violated invariant is a machinery
     error (the model is wrong), as in tlc.model_check."""
@@ -659,15 +659,17 @@ def run(tier, replay=None):
 
     tree = Tree(ctx.seed)
     opened_outside = []
+    auditing = [False]
 
     def audit(event, args):
-        if event == 'open' and args and isinstance(args[0], str) and args[0].startswith(tree.top) \
+        if auditing[0] and event == 'open' and args and isinstance(args[0], str) and args[0].startswith(tree.top) \
                 and not tree.inside(args[0]) and not args[0].endswith('.mk'):
             opened_outside.append(args[0])
 
     try:
         apps = {'/': App(tree, '/'), '/static': App(tree, '/static')}
         sys.addaudithook(audit)
+        auditing[0] = True
 
         # ---- paths ---------------------------------------------------------
         ptraces = []      # (meta, lines)
@@ -724,35 +726,51 @@ def run(tier, replay=None):
             lines = run_range_case(tree, app, size, fe, specs)
             rtraces.append(({'kind': 'range', 'size': size, 'fe': fe, 'specs': specs, 'origin': 'random'}, lines))
     finally:
+        auditing[0] = False
         tree.remove()
 
     _tick('replay random ranges')
     # 3. TLC judges what the real components did
     with ThreadPoolExecutor(max_workers=2) as ex:
         fp = ex.submit(tlc.validate_traces, SPEC, 'StaticPathTrace', 'StaticPathTrace.cfg', [t[1] for t in ptraces],
-                       4 if quick else 10, jvm_opts=JVM)
+                       4 if quick else 10, timeout=3600, jvm_opts=JVM)
         fr = ex.submit(tlc.validate_traces, SPEC, 'RangesTrace', 'RangesTrace.cfg', [t[1] for t in rtraces],
-                       4 if quick else 6, jvm_opts=JVM)
+                       4 if quick else 6, timeout=3600, jvm_opts=JVM)
         (pverd, pstats), (rverd, rstats) = fp.result(), fr.result()
 
     _tick('trace validation')
     accepted_p, accepted_r = [], []
+    ctx.max_samples = 16
+    seen_classes = set()
+
+    def sample_once(cls, sample):
+        # one written-out case per (answer, verdict) class and at most 8 per half, so that the
+        # samples show the variety of cases
+        if cls in seen_classes or sum(1 for c in seen_classes if c[0] == cls[0]) >= 8:
+            return None
+        seen_classes.add(cls)
+        return sample
+
     for (meta, lines), (clause, line) in zip(ptraces, pverd):
         nontrivial = any(t not in ('dir', 'file') for t in meta['toks'])
         ctx.count_case(['path', meta['mount'], meta['fe'], meta['toks']], nontrivial,
-                       sample={'path': path_string(meta['mount'], meta['toks']), 'fe': meta['fe'],
-                               'status': lines[1]['status'], 'body': lines[1]['body'], 'verdict': clause or 'accepted'})
+                       sample=sample_once(('path', lines[1]['status'], lines[1]['body'][:4], clause),
+                                          {'path': path_string(meta['mount'], meta['toks']), 'fe': meta['fe'],
+                                           'status': lines[1]['status'], 'body': lines[1]['body'],
+                                           'verdict': clause or 'accepted'}))
         if clause:
             ctx.violation(clause, path_witness(meta['mount'], meta['fe'], meta['toks'], lines),
                           dict(meta, path=path_string(meta['mount'], meta['toks']), trace=lines, line=line))
         else:
             accepted_p.append(lines)
-    ctx.max_samples = 8
     for (meta, lines), (clause, line) in zip(rtraces, rverd):
+        st = [ln['a'] for ln in lines if ln['k'] == 'resp'][0]
         ctx.count_case(['range', meta['size'], meta['fe'], meta['specs']], bool(meta['specs']),
-                       sample={'range': 'bytes=' + ','.join(spec_string(sp) for sp in meta['specs']), 'size': meta['size'],
-                               'lines': [ln for ln in lines if ln['k'] in ('resp', 'body', 'part')][:4],
-                               'verdict': clause or 'accepted'})
+                       sample=sample_once(('range', st, len(meta['specs']) > 1, clause),
+                                          {'range': 'bytes=' + ','.join(spec_string(sp) for sp in meta['specs']),
+                                           'size': meta['size'], 'fe': meta['fe'],
+                                           'lines': [ln for ln in lines if ln['k'] in ('resp', 'body', 'part')][:4],
+                                           'verdict': clause or 'accepted'}))
         if clause:
             ctx.violation(clause, range_witness(meta['size'], meta['fe'], meta['specs'], lines),
                           dict(meta, header='bytes=' + ','.join(spec_string(sp) for sp in meta['specs']), trace=lines,
